@@ -24,7 +24,9 @@ type lockEv struct {
 type accessLog struct {
 	epoch         int // only objects with id <= epoch are logged (pre-existing objects)
 	acc           []access
-	held          []string
+	held          []string // mutexes held by the running thread (swapped on a thread switch)
+	heldOther     []string // mutexes held by the suspended thread (interleaved mode)
+	interleaved   bool     // accesses were logged in a real interleaving: seq is the execution order
 	seg           int
 	onLockBlocked func(st *State, p PtrVal)
 	events        []string
@@ -36,6 +38,7 @@ func (l *accessLog) clone() *accessLog {
 	n := *l
 	n.acc = append([]access(nil), l.acc...)
 	n.held = append([]string(nil), l.held...)
+	n.heldOther = append([]string(nil), l.heldOther...)
 	n.events = append([]string(nil), l.events...)
 	n.lockEvs = append([]lockEv(nil), l.lockEvs...)
 	return &n
@@ -102,6 +105,9 @@ func itoa(n int) string {
 // at least one of them a write, with no mutex held in common, are a data race
 // by the Go memory model (only mutexes order the threads).
 func (l *accessLog) races() []string {
+	if l.interleaved {
+		return l.racesHB()
+	}
 	type key struct {
 		obj  int
 		path string
@@ -206,4 +212,183 @@ func splitComma(s string) []string {
 		out = append(out, cur)
 	}
 	return out
+}
+
+// racesHB is the happens-before analysis of one executed interleaving (vfPar):
+// seq is the real execution order.  Two accesses of different threads to one
+// location, one of them a write, race unless the earlier one is followed (in
+// its thread) by a release of a mutex that the later one's thread acquired
+// after that release and before the later access.  With two threads a direct
+// release/acquire edge is the only way to order them.
+func (l *accessLog) racesHB() []string {
+	byObj := map[int][]access{}
+	for _, a := range l.acc {
+		byObj[a.obj] = append(byObj[a.obj], a)
+	}
+	// per thread: releases and acquires in seq order
+	seen := map[string]bool{}
+	var out []string
+	for _, as := range byObj {
+		for i := 0; i < len(as); i++ {
+			for j := i + 1; j < len(as); j++ {
+				x, y := as[i], as[j] // x.seq < y.seq (log order)
+				if x.thread == y.thread || (!x.write && !y.write) {
+					continue
+				}
+				if !(hasPrefix(x.path, y.path) || hasPrefix(y.path, x.path)) {
+					continue
+				}
+				ordered := false
+				for _, r := range l.lockEvs {
+					if r.thread != x.thread || r.acquire || r.seq < x.seq || r.seq > y.seq {
+						continue
+					}
+					for _, q := range l.lockEvs {
+						if q.thread == y.thread && q.acquire && q.key == r.key && q.seq > r.seq && q.seq < y.seq {
+							ordered = true
+							break
+						}
+					}
+					if ordered {
+						break
+					}
+				}
+				if ordered {
+					continue
+				}
+				w, r := x, y
+				if !w.write {
+					w, r = y, x
+				}
+				kind := "read"
+				if r.write {
+					kind = "write"
+				}
+				d := "write in " + w.where + " vs " + kind + " in " + r.where
+				if !seen[d] {
+					seen[d] = true
+					out = append(out, d)
+				}
+			}
+		}
+	}
+	return out
+}
+
+// ---------- vfPar: two suspendable threads, preemption-bounded interleavings
+//
+// vfPar(f, g, budget) runs the closures f and g as two threads of the one
+// machine state.  A thread runs until it finishes, blocks on a mutex the other
+// thread holds (forced switch), or is preempted at a scheduling point: just
+// before a Lock/TryLock and just after an Unlock.  Which thread starts and at
+// which scheduling points a preemption happens are forked choices; the number
+// of preemptions per execution is bounded by budget.  Code between two
+// synchronisation operations is atomic in the exploration; the happens-before
+// analysis (racesHB) reports unordered conflicting accesses inside such
+// segments.
+
+type parState struct {
+	main    []*Frame
+	stacks  [2][]*Frame
+	cur     int
+	done    [2]bool
+	blocked [2]bool
+	skipAsk [2]bool
+	budget  int
+	nsp     int
+	switches int
+}
+
+func (p *parState) clone() *parState {
+	n := *p
+	n.main = append([]*Frame(nil), p.main...)
+	for _, f := range p.main {
+		f.owner = nil
+	}
+	for i := range p.stacks {
+		if i == p.cur {
+			n.stacks[i] = nil // stale: the running thread's stack is st.frames
+			continue
+		}
+		n.stacks[i] = append([]*Frame(nil), p.stacks[i]...)
+		for _, f := range p.stacks[i] {
+			f.owner = nil
+		}
+	}
+	return &n
+}
+
+func (e *Engine) parStart(st *State, fr *Frame, args []Val) {
+	if st.par != nil {
+		abort("unsupported", "nested vfPar")
+	}
+	f, g := args[0].(FuncVal), args[1].(FuncVal)
+	if f.fn == nil || g.fn == nil || f.native != nil || g.native != nil {
+		abort("unsupported", "vfPar needs two Go closures")
+	}
+	budget := e.needInt(st, args[2], "preemption budget")
+	e.rep.bounds["vfPar.preemptions"] = itoa(budget)
+	first := e.choose(st, "par-first", 2)
+	fr = st.top()
+	fr.idx++ // the harness continues after the call once both threads are done
+	p := &parState{budget: budget}
+	p.main = st.frames
+	st.frames = nil
+	e.pushFrame(st, f.fn, nil, f.bind, nil)
+	p.stacks[0] = st.frames
+	st.frames = nil
+	e.pushFrame(st, g.fn, nil, g.bind, nil)
+	p.stacks[1] = st.frames
+	p.cur = first
+	st.frames = p.stacks[first]
+	st.par = p
+	st.thread = first + 1
+	st.log = &accessLog{epoch: *st.nextObj, interleaved: true}
+}
+
+func (e *Engine) parSwitch(st *State) {
+	p := st.par
+	p.stacks[p.cur] = st.frames
+	p.cur = 1 - p.cur
+	st.frames = p.stacks[p.cur]
+	st.thread = p.cur + 1
+	st.log.held, st.log.heldOther = st.log.heldOther, st.log.held
+	p.switches++
+}
+
+// parThreadEnd is called when the frame stack ran empty; it reports whether
+// the whole path is over.
+func (e *Engine) parThreadEnd(st *State) bool {
+	p := st.par
+	if p == nil {
+		return true
+	}
+	p.done[p.cur] = true
+	if len(st.log.held) > 0 {
+		abort("panic", "goroutine ended holding a mutex")
+	}
+	if !p.done[1-p.cur] {
+		e.parSwitch(st)
+		return false
+	}
+	st.frames = p.main
+	st.par = nil
+	st.thread = 0
+	e.rep.notes["vfPar: executions explored"]++
+	return false
+}
+
+// parMayPreempt: a forked decision at a scheduling point of the running
+// thread.  It must be taken before the caller changes any state (the forked
+// state re-executes the synchronisation call from its start).
+func (e *Engine) parMayPreempt(st *State) bool {
+	p := st.par
+	if p == nil || p.budget <= 0 || p.done[1-p.cur] || p.blocked[1-p.cur] {
+		return false
+	}
+	site := "preempt#" + itoa(p.nsp)
+	c := e.choose(st, site, 2)
+	p = st.par
+	p.nsp++
+	return c == 1
 }
